@@ -133,6 +133,36 @@ def Target.resi : Target → Option Nat
 
 def Target.Valid (t : Target) : Prop := ∀ r, t.resi = some r → validAA r = true
 
+/-! ## the configuration path: JSON object → `HashMap<String, _>` → `validate_mods`
+
+`Builder` derives `Deserialize`: `static_mods : Option<HashMap<String, f32>>`,
+`variable_mods : Option<HashMap<String, Vec<f32>>>`. serde feeds the members of the JSON object to the
+map in textual order, so a repeated key keeps its LAST value; a member whose value has the wrong JSON
+type (a list where a number is expected, a bare number where a list is expected, `null`, a string,
+the non-JSON literal `NaN`) fails the whole document, wherever it stands. Number text → `f32` is the
+JSON parser's business (the request carries the bit pattern the harness rendered exactly).
+`validate_mods` then drops the keys `from_str` rejects and keeps the others; different accepted
+keys denote different specificities, so the iteration order of the string map cannot matter. -/
+
+/-- one member of a mod map as written: the value is `none` when it has the wrong JSON type -/
+abbrev Member (β : Type) := List Nat × Option β
+
+/-- the string-keyed map after serde: `none` = deserialisation error; a repeated key keeps its last value
+    (its position in the list is that of the last occurrence; the order is never observed) -/
+def deserMap {β : Type} : List (Member β) → Option (List (List Nat × β))
+  | [] => some []
+  | (k, v) :: rest =>
+    match v, deserMap rest with
+    | some x, some m => if m.any (fun kv => kv.1 == k) then some m else some ((k, x) :: m)
+    | _, _ => none
+
+/-- `Builder::make_parameters` for the two mod maps: `none` = the JSON document is rejected -/
+def configMods {β γ : Type} (statics : List (Member β)) (vars : List (Member γ)) :
+    Option (List (Target × β) × List (Target × γ)) :=
+  match deserMap statics, deserMap vars with
+  | some s, some v => some (validate s, validate v)
+  | _, _ => none
+
 /-! ## `Peptide::try_from(Digest)` -/
 
 section generic
